@@ -140,6 +140,8 @@ def classify(hist, b):
     name = b.get("name")
     mod, bl = fold(hist, b["step"])
     return {"name": name, "in_module_dict": mod[name] != 0,
+            # does the wrong observation equal what a lookup that IGNORES the module dict would give?
+            "got_is_builtins_entry": b.get("got") == (100 if bl[name] == 0 else bl[name]),
             "builtins_entry": "original" if bl[name] == (9 if name == "hex" else 0) else ("deleted" if bl[name] == 0 else "replaced")}
 
 
